@@ -105,6 +105,23 @@ func isDigits(s string) bool {
 	return len(s) > 0
 }
 
+// asciiLower returns s with the ASCII letters A-Z mapped to lower case and
+// every other byte unchanged.
+func asciiLower(s string) string {
+	for i := 0; i < len(s); i++ {
+		if c := s[i]; 'A' <= c && c <= 'Z' {
+			b := []byte(s)
+			for ; i < len(b); i++ {
+				if c := b[i]; 'A' <= c && c <= 'Z' {
+					b[i] = c + ('a' - 'A')
+				}
+			}
+			return string(b)
+		}
+	}
+	return s
+}
+
 func consumePrefix(s, prefix string) (string, bool) {
 	if strings.HasPrefix(s, prefix) {
 		return s[len(prefix):], true
@@ -118,7 +135,9 @@ func (d *Decimal) setString(c *Context, s string) (Condition, error) {
 	if !d.Negative {
 		s, _ = consumePrefix(s, "+")
 	}
-	s = strings.ToLower(s)
+	// The grammar is case-insensitive in ASCII only; strings.ToLower would
+	// also map some non-ASCII letters (U+0130) onto ASCII ones.
+	s = asciiLower(s)
 	d.Exponent = 0
 	d.Coeff.SetInt64(0)
 	// Until there are no parse errors, leave as NaN.
